@@ -162,7 +162,7 @@ func runTie(kind string, id int, rc *hx.Rand) (TieCase, *built, *observed) {
 	for {
 		st := randStyle(rc)
 		b = build(kind, rc, st, sizeTarget(rc), rc.Intn(40) == 0)
-		if len(b.rd.toks) <= 220 {
+		if len(b.rd.toks) <= 160 {
 			break
 		}
 	}
